@@ -25,6 +25,9 @@ impl<'a> Choices<'a> {
         self.pos += 1;
         v
     }
+    pub fn data_slice(&self) -> &[u32] {
+        self.data
+    }
     pub fn exhausted(&self) -> bool {
         self.pos >= self.data.len()
     }
@@ -313,7 +316,23 @@ pub struct EngineCfg {
     pub max_shrink_iters: u32,
 }
 
+thread_local! {
+    static CAREFUL: Option<String> = std::env::var("VERIF_CAREFUL").ok();
+}
+
+/// careful mode (after a worker died): the case about to run is written to a file first,
+/// so that the parent can attribute a process death to it
+fn careful_note(choices: &[u32], direct: bool) {
+    CAREFUL.with(|c| {
+        if let Some(path) = c {
+            let s = format!("mode={}\nchoices={}\n", if direct { "direct" } else { "mapped" }, choices.iter().map(|x| x.to_string()).collect::<Vec<_>>().join(","));
+            let _ = std::fs::write(path, s);
+        }
+    });
+}
+
 fn run_guarded(f: &mut CaseFn, ch: &mut Choices, ctx: &CaseCtx) -> CaseOut {
+    careful_note(ch.data_slice(), ch.direct);
     match std::panic::catch_unwind(std::panic::AssertUnwindSafe(|| f(ch, ctx))) {
         Ok(o) => o,
         Err(_) => {
